@@ -442,7 +442,7 @@ func runC01(ctx Ctx) int {
 		}
 	}
 	run := ev.NewRun("C01")
-	run.Rule = "E2: breadth-first search over event histories on the real provider: events = SSO acceptance (POST/Redirect), injected pending records (binding POST/Redirect/none/Artifact x consumer URL registered/empty, and records reusing the first session's SP-chosen request ID and RelayState), login completion of any session, callback of any session in 10 id placements / spellings (GET query, POST body, body and query naming different sessions, two id values, id in a header only, padded, upper-cased, urn:uuid: prefix, braces, dash-less; stored ids are UUID-shaped) plus unknown / empty / absent id, and arming a one-shot storage failure (user info, entity lookup, signing key error / key without certificate / garbage certificate / zero key / certificate of another key); states are deduplicated by a canonical key (sessions in creation order: binding, consumer-URL-empty, done, user; armed fault) and every transition, including self-loops, is executed by replaying the shortest history on a fresh provider and judged; every state is additionally extended by callback(k) ; callback(any) so that state kept inside the IdP between requests shows. E3 (controlled scheduler; scheduling points before every statement of every repository function, at every function entry and storage call): callback(i) || complete(i) with unbounded preemptions (both bindings), callback(i) || callback(j) || complete(j) at preemption bound 2 (quick) / 3 (thorough) at function-entry granularity and at bound 1 / 2 at statement granularity, two callbacks of one user (one pending, one done) at bound 2"
+	run.Rule = "E2: breadth-first search over event histories on the real provider: events = SSO acceptance (POST/Redirect), injected pending records (binding POST/Redirect/none/Artifact x consumer URL registered/empty, and records reusing the first session's SP-chosen request ID and RelayState), login completion of any session, callback of any session in 10 id placements / spellings (GET query, POST body, body and query naming different sessions, two id values, id in a header only, padded, upper-cased, urn:uuid: prefix, braces, dash-less; stored ids are UUID-shaped) plus unknown / empty / absent id, and arming a one-shot storage failure (user info, entity lookup, signing key error / key without certificate / garbage certificate / zero key / certificate of another key); states are deduplicated by a canonical key (sessions in creation order: binding, consumer-URL-empty, done, user; armed fault) and every transition, including self-loops, is executed by replaying the shortest history on a fresh provider and judged; every state is additionally extended by callback(k) ; callback(any) and by callback(k) ; arm(any storage failure) ; callback(j) so that state kept inside the IdP between requests shows. E3 (controlled scheduler; scheduling points before every statement of every repository function, at every function entry and storage call): callback(i) || complete(i) with unbounded preemptions (both bindings), callback(i) || callback(j) || complete(j) at preemption bound 2 (quick) / 3 (thorough) at function-entry granularity and at bound 1 / 2 at statement granularity, two callbacks of one user (one pending, one done) at bound 2"
 	run.Assume = []string{"<= 2 sessions and depth 5 (quick), <= 3 sessions and depth 6 (thorough); the canonical key keeps, of request ID and RelayState, only whether a session reuses the first session's values"}
 	if ctx.Replay != "" {
 		var rp c01ReplayT
@@ -557,6 +557,19 @@ func runC01(ctx Ctx) int {
 				hh := append(append([]c01Event{}, h...), c01Event{Kind: "callback", A: "get-query", K: k}, e2)
 				hsItems = append(hsItems, hs{hh})
 			}
+			// ... and by callback(k) ; arm(one storage failure) ; callback(j): what an earlier, healthy callback left behind in
+			// the IdP must not turn a later failure into a Success
+			if _, _, armed := c01Key(w); !armed {
+				for _, arm := range c01Menu(n, 0, false) {
+					if arm.Kind != "arm" {
+						continue
+					}
+					for j := 0; j < n; j++ {
+						hh := append(append([]c01Event{}, h...), c01Event{Kind: "callback", A: "get-query", K: k}, arm, c01Event{Kind: "callback", A: "get-query", K: j})
+						hsItems = append(hsItems, hs{hh})
+					}
+				}
+			}
 		}
 	}
 	_, c3 := parallel(len(hsItems), deadline, func(i int) {
@@ -566,7 +579,11 @@ func runC01(ctx Ctx) int {
 		run.Transitions.Add(2)
 		run.Outcome("after-callback:" + st.Class)
 		for _, c := range st.Clauses {
-			run.Violate(c, "callback", []string{"after-an-earlier-callback", "event=" + h[len(h)-1].Kind + ":" + h[len(h)-1].A}, st.Detail, c01ReplayT{History: h})
+			labels := []string{"after-an-earlier-callback", "event=" + h[len(h)-1].Kind + ":" + h[len(h)-1].A}
+			if a := h[len(h)-2]; a.Kind == "arm" {
+				labels = append(labels, "armed="+a.A+":"+a.B)
+			}
+			run.Violate(c, "callback", labels, st.Detail, c01ReplayT{History: h})
 		}
 	})
 	complete = complete && c3
